@@ -72,7 +72,7 @@ def run(ctx):
             letter = ls[0] if oki else None
             fa = [atom_norm(a, g) for a in rv.facts_at(bi)]
             if kind == "sub":
-                sign = letter is not None and ("rel", "Lt", letter, ("int", 0)) in fa
+                sign = letter is not None and any(implies(h, ("rel", "Lt", letter, ("int", 0))) for h in fa)
                 shape = letter is not None and idx == ("field", ("binop", "SubWithOverflow", ("unop", "Neg", letter), ("int", 1)), "0")
             else:
                 sign = letter is not None and any(implies(h, ("rel", "Le", ("int", 0), letter)) for h in fa)
@@ -106,7 +106,7 @@ def run(ctx):
         args = [norm(ai.origin(a), g) for a in t["args"]]
         fa = [atom_norm(a, g) for a in ai.facts_at(bi)]
         if n.endswith("Vec::<T>::new"):
-            ok = ("rel", "Eq", nr, ("int", 0)) in fa
+            ok = any(implies(h, ("rel", "Eq", nr, ("int", 0))) for h in fa)
             ctx.ob("T9-sorted-on-return", ai.name, "return vec![]", "ok" if ok else "violation", "empty list exactly under nr_gens == 0" if ok else "an empty list is returned without nr_gens == 0")
         elif n.endswith("vec::from_elem"):
             ok = args == [("int", 0), nr] and any(a[0] == "rel" and a[1] == "Eq" and a[3] == ("int", 0) and a[2][0] == "call" and a[2][1].endswith("::len") for a in fa)
